@@ -294,6 +294,8 @@ def run(shard, rec, rng):
         from . import c02_form_roundtrip as C2
 
         C2.concurrent_shared_parser(C2._world(), rec, rng, 3, prefix="C01")
+    if shard["index"] % 4 == 1:
+        limited_memory_schedules(FP, rec, rng)
     for parts, bnd, nl_name, pre, epi, pad in corpus(rng, cfg, shard["index"], shard["of"]):
         built = G.build(parts, bnd, G.NLS[nl_name], pre, epi, pad=pad)
         if pad:
@@ -312,6 +314,47 @@ def run(shard, rec, rng):
                         "schedules": "all 2-way splits, 3-way, byte-at-a-time, random, parser buffer sizes"})
     reach.finish()
     contracts.report(rec)
+
+
+def limited_memory_schedules(FP, rec, rng):
+    """Configuration + schedule: a memory limit for form fields is set (Request has one by default) and the body arrives
+    in pieces that are all far below it.  Whether the body is accepted - and what it yields - depends on the sizes of its
+    fields only (each field within the limit; files do not count), never on where the pieces end."""
+    bnd = b"bnd"
+    for L in (200, 400):
+        for fsize in (L - 60, L - 30, L - 3, L, L + 1, L + 40):
+            for tail in ("file", "field+file", "nothing", "big-file"):
+                parts = [(b"text", None, bytes(rng.choice(b"abcdefgh \r\n-") for _ in range(fsize)))]
+                if tail == "file":
+                    parts.append((b"up", b"f.bin", b"F" * 50))
+                elif tail == "field+file":
+                    parts += [(b"t2", None, b"x" * 20), (b"up", b"f.bin", b"F" * 90)]
+                elif tail == "big-file":
+                    parts.append((b"up", b"f.bin", b"F" * (3 * L)))
+                body = b""
+                for name, fn, data in parts:
+                    body += b"--" + bnd + b"\r\nContent-Disposition: form-data; name=\"" + name + b"\"" + (b"; filename=\"" + fn + b"\"" if fn else b"") + b"\r\n\r\n" + data + b"\r\n"
+                body += b"--" + bnd + b"--\r\n"
+                want_ok = fsize <= L
+                want = ([["field", n_.decode(), None, d_] for n_, f_, d_ in parts if f_ is None], [["file", n_.decode(), f_.decode(), d_] for n_, f_, d_ in parts if f_ is not None])
+                for k in list(range(1, L // 4 + 1)):
+                    for how in ("buffer_size", "short_reads"):
+                        rec.case()
+                        rec.observe("limited_memory_schedules")
+                        rec.nontrivial(("limited-memory", L, fsize, tail, k, how))
+                        try:
+                            parser = FP.MultiPartParser(max_form_memory_size=L, buffer_size=k if how == "buffer_size" else 64 * 1024)
+                            form, files = parser.parse(io.BytesIO(body) if how == "buffer_size" else ShortReader(body, k), bnd, len(body))
+                            got = ([["field", a, None, v.encode("utf-8", "surrogateescape")] for a, v in form.items(multi=True)], [["file", a, f.filename, f.stream.read()] for a, f in files.items(multi=True)])
+                        except Exception as e:  # noqa: BLE001
+                            got = ("EXC", type(e).__name__)
+                        case = {"mode": "limited-memory-schedule", "max_form_memory_size": L, "field_size": fsize, "then": tail, "piece": k, "pieces_by": how}
+                        if want_ok and got != want:
+                            rec.violation("C01/outcome-depends-on-piece-size-under-a-memory-limit", f"a {fsize} byte field under max_form_memory_size={L}, pieces of {k} bytes ({how}): {str(got)[:160]}; other piece sizes give the parts", case, monitor="boundary-recorder")
+                            return
+                        if not want_ok and got != ("EXC", "RequestEntityTooLarge"):
+                            rec.violation("C01/outcome-depends-on-piece-size-under-a-memory-limit", f"a {fsize} byte field under max_form_memory_size={L}, pieces of {k} bytes ({how}): {str(got)[:160]}; expected a refusal", case, monitor="boundary-recorder")
+                            return
 
 
 def _exp_high(expected):
